@@ -228,17 +228,38 @@ Theorem minimal_meta_tile_equals_tile_fetched_alone :
 Proof. exact minimal_equals_single_lemma. Qed.
 
 (* Upstream faults, single tile and meta tile strategies: a creation step one of whose upstream responses must not be
-   cached (substitute image of an error handler with cache: false) or ends in the middle of the image data hands
-   nothing to the cache - whatever is stored comes from a complete, cacheable response. *)
+   cached (substitute image of an error handler with cache: false), ends in the middle of the image data, or whose
+   upstream request raises hands nothing to the cache - whatever is stored comes from a complete, cacheable response. *)
 Theorem faulted_response_is_not_stored :
-  forall g bad cut plan steps failed,
-    run_plan_faults g false bad cut plan = (steps, failed) ->
+  forall g bad cut errs plan steps failed,
+    run_plan_faults g false bad cut errs plan = (steps, failed) ->
     forall st, In st steps ->
-      existsb (fun rq => bbox_mem (fst rq) bad || bbox_mem (fst rq) cut) (fst st) = true -> snd st = [].
+      existsb (fun rq => bbox_mem (fst rq) bad || bbox_mem (fst rq) cut || bbox_mem (fst rq) errs) (fst st) = true -> snd st = [].
 Proof. exact faulted_step_stores_nothing. Qed.
+
+(* An upstream request that raises (SourceError) makes the request fail in every strategy, bulk included: a tile is
+   never answered without image by a request that looks successful. *)
+Theorem upstream_error_fails_the_request :
+  forall g bulk bad cut errs plan steps failed,
+    run_plan_faults g bulk bad cut errs plan = (steps, failed) ->
+    existsb (fun st => existsb (fun rq : bbox * (Z * Z) => bbox_mem (fst rq) errs) (fst st)) plan = true ->
+    failed = true.
+Proof. exact upstream_error_fails. Qed.
 
 (* ... bulk strategy: a tile whose own response must not be cached is not among the tiles of the store call. *)
 Theorem bulk_uncacheable_tile_is_not_stored :
   forall g bad st c,
     In c (snd (step_with_faults g true bad st)) -> bbox_mem (fst (tile_request g c)) bad = false.
 Proof. exact bulk_uncacheable_not_stored. Qed.
+
+(* Source with alpha and a clipping coverage, opaque cache: the pixel stored for a tile cut out of its meta tile equals
+   the pixel stored for the tile fetched alone (both are clipped at the coverage and drawn on the background by
+   merge_images), when no buffer is cut off. *)
+Theorem clipped_meta_tile_equals_tile_fetched_alone :
+  forall m q inside cx cy z j k,
+    mwf m -> valid_level (mg_grid m) z = true -> 0 < q ->
+    0 <= cx < fst (grid_size (mg_grid m) z) -> 0 <= cy < snd (grid_size (mg_grid m) z) ->
+    no_buffer_cut m cx cy z ->
+    0 <= j < tw (mg_grid m) -> 0 <= k < th (mg_grid m) ->
+    model_clip_colour m q HowMeta inside (cx, cy, z) j k = model_clip_colour m q HowSingle inside (cx, cy, z) j k.
+Proof. exact meta_clip_colour_equals_single. Qed.
